@@ -25,6 +25,19 @@ void *ares_malloc_zero(size_t n)
   }
   return p;
 }
+#ifdef VERIF_EXACT_LIBC
+/* bounded (B-tier) harnesses: exact semantics, small sizes */
+void *ares_realloc_zero(void *ptr, size_t orig_size, size_t new_size)
+{
+  if (nondet_bool()) return NULL;
+  unsigned char *q = malloc(new_size);
+  __CPROVER_assume(q != NULL);
+  for (size_t i = 0; i < new_size; i++) q[i] = (ptr != NULL && i < orig_size) ? ((unsigned char *)ptr)[i] : 0;
+  if (ptr != NULL) free(ptr);
+  return q;
+}
+void *ares_realloc(void *p, size_t n) { return realloc(p, n); }
+#else
 void *ares_realloc(void *p, size_t n)
 {
   if (nondet_bool()) return NULL;
@@ -38,4 +51,5 @@ void *ares_realloc_zero(void *ptr, size_t orig_size, size_t new_size)
   void *p = ares_realloc(ptr, new_size);
   return p;
 }
+#endif
 #endif
